@@ -22,7 +22,6 @@ import (
 	"weak"
 
 	"github.com/talostrading/sonic"
-	"github.com/talostrading/sonic/multicast"
 	"github.com/talostrading/sonic/sonicopts"
 	"golang.org/x/sys/unix"
 	"verifmc/engine"
@@ -146,7 +145,7 @@ func gcCreate(x *engine.X, ioc *sonic.IO, kind string, wantR, wantW bool) *gcObj
 		})
 		return g
 	case "peer":
-		p, err := multicast.NewUDPPeer(ioc, "udp", "127.0.0.1:0")
+		p, err := newOwnPeer(ioc, "127.0.0.1")
 		if err != nil {
 			engine.HarnessError("NewUDPPeer: %v", err)
 		}
